@@ -73,7 +73,7 @@ theorem step_lk_other {w w' : World} {a : Nat} {act : Act} (h : step w a act = s
 theorem enter_region {w w' : World} {a : Nat} {act : Act} (h : step w a act = some w')
     (hr : inRegion (w'.agents a).pc = true) :
     inRegion (w.agents a).pc = true ∨
-      (act = .probe ∧ (w.agents a).pc = .probe ∧ ∀ b, w.ns (w.agents a).dag ≠ .bound b true) := by
+      (act = .probe ∧ (w.agents a).pc = .probe ∧ ∀ b, w.ns (w.agents a).sock ≠ .bound b true) := by
   unfold step stepAg at h
   split at h <;> (try split at h) <;> (try split at h) <;> (try split at h)
   all_goals first | (cases h; done) | skip
@@ -86,9 +86,9 @@ theorem enter_region {w w' : World} {a : Nat} {act : Act} (h : step w a act = so
 /-- who can change the socket path of DAG file `d` -/
 theorem ns_changed {w w' : World} {a : Nat} {act : Act} (h : step w a act = some w') (d : Nat)
     (hc : w'.ns d ≠ w.ns d) :
-    d = (w.agents a).dag ∧
+    d = (w.agents a).sock ∧
       (inRegion (w.agents a).pc = true ∨ (act = .kill ∧ ∃ l, w.ns d = .bound a l)) := by
-  by_cases hd : d = (w.agents a).dag
+  by_cases hd : d = (w.agents a).sock
   · refine ⟨hd, ?_⟩
     subst hd
     unfold step stepAg at h
@@ -104,9 +104,9 @@ theorem ns_changed {w w' : World} {a : Nat} {act : Act} (h : step w a act = some
 /-- an agent that holds the endpoint after its own action has a bound, listening socket -/
 theorem hold_ns {w w' : World} {a : Nat} {act : Act} (h : step w a act = some w')
     (hh : holding (w'.agents a).pc = true)
-    (h2 : holding (w.agents a).pc = true → w.ns (w.agents a).dag = .bound a true)
-    (h3 : (w.agents a).pc = .listen → w.ns (w.agents a).dag = .bound a false) :
-    w'.ns (w'.agents a).dag = .bound a true := by
+    (h2 : holding (w.agents a).pc = true → w.ns (w.agents a).sock = .bound a true)
+    (h3 : (w.agents a).pc = .listen → w.ns (w.agents a).sock = .bound a false) :
+    w'.ns (w'.agents a).sock = .bound a true := by
   unfold step stepAg at h
   split at h <;> (try split at h) <;> (try split at h) <;> (try split at h)
   all_goals first | (cases h; done) | skip
@@ -117,7 +117,7 @@ theorem hold_ns {w w' : World} {a : Nat} {act : Act} (h : step w a act = some w'
 
 /-- an agent that is at `listen` after its own action has just bound the path -/
 theorem listen_ns {w w' : World} {a : Nat} {act : Act} (h : step w a act = some w')
-    (hl : (w'.agents a).pc = .listen) : w'.ns (w'.agents a).dag = .bound a false := by
+    (hl : (w'.agents a).pc = .listen) : w'.ns (w'.agents a).sock = .bound a false := by
   unfold step stepAg at h
   split at h <;> (try split at h) <;> (try split at h) <;> (try split at h)
   all_goals first | (cases h; done) | skip
@@ -129,7 +129,7 @@ theorem listen_ns {w w' : World} {a : Nat} {act : Act} (h : step w a act = some 
 
 /-- an agent that is at `bind` after its own action has just unlinked the path -/
 theorem bind_ns {w w' : World} {a : Nat} {act : Act} (h : step w a act = some w')
-    (hl : (w'.agents a).pc = .bind) : w'.ns (w'.agents a).dag = .absent := by
+    (hl : (w'.agents a).pc = .bind) : w'.ns (w'.agents a).sock = .absent := by
   unfold step stepAg at h
   split at h <;> (try split at h) <;> (try split at h) <;> (try split at h)
   all_goals first | (cases h; done) | skip
@@ -142,7 +142,7 @@ theorem bind_ns {w w' : World} {a : Nat} {act : Act} (h : step w a act = some w'
 /-- the bind-failure path is entered only by a bind onto an existing path -/
 theorem enter_failing {w w' : World} {a : Nat} {act : Act} (h : step w a act = some w')
     (hf : failing (w'.agents a).pc = true) :
-    failing (w.agents a).pc = true ∨ ((w.agents a).pc = .bind ∧ w.ns (w.agents a).dag ≠ .absent) := by
+    failing (w.agents a).pc = true ∨ ((w.agents a).pc = .bind ∧ w.ns (w.agents a).sock ≠ .absent) := by
   unfold step stepAg at h
   split at h <;> (try split at h) <;> (try split at h) <;> (try split at h)
   all_goals first | (cases h; done) | skip
@@ -180,40 +180,79 @@ theorem lock_kept {w w' : World} {a x : Nat} {act : Act} (h : step w a act = som
        · subst hd; simp_all [release_lk]
        · simp [release_lk, setLk, hd, hl])
 
-/-- the invariant of DAG file `d` -/
-structure Excl (w : World) (d : Nat) : Prop where
+/-- in every reachable world: an agent that could open the DAG file and is at a lock-holding program
+    counter holds the lock of that file — whatever socket names the agents use -/
+def LockInv (w : World) : Prop :=
+  ∀ a, (w.agents a).canOpen = true → holdsLock (w.agents a).pc = true → w.lk (w.agents a).dag = some a
+
+theorem step_lockInv {w w' : World} {a : Nat} {act : Act} (inv : LockInv w) (h : step w a act = some w') :
+    LockInv w' := by
+  intro x hopen hl
+  by_cases hxa : x = a
+  · subst hxa
+    rw [step_canOpen h x] at hopen
+    exact own_lock h hl hopen (inv x hopen)
+  · rw [step_other h x hxa] at hopen hl ⊢
+    exact lock_kept h hxa _ (inv x hopen hl)
+
+theorem reach_lockInv {w : World} (hw : Reach w) : LockInv w := by
+  obtain ⟨cfgs, tr, h⟩ := hw
+  have h0 : LockInv (init cfgs) := by
+    intro a _ hl
+    have hpc : ((init cfgs).agents a).pc = .setup ∨ ((init cfgs).agents a).pc = .done := by
+      simp only [init]; split <;> simp [fresh, idle]
+    rcases hpc with e | e <;> rw [e] at hl <;> simp [holdsLock] at hl
+  generalize init cfgs = w0 at h h0
+  induction tr generalizing w0 with
+  | nil => simp [run] at h; subst h; exact h0
+  | cons x tr ih =>
+    obtain ⟨a, act⟩ := x
+    simp only [run] at h
+    split at h
+    · cases h
+    · rename_i w1 hs
+      exact ih w1 h (step_lockInv h0 hs)
+
+/-- DAG file `d` is reached under ONE spelling of its path: its agents, and only they, use socket name `s` -/
+def OneSpelling (w : World) (d s : Nat) : Prop := ∀ c, (w.agents c).dag = d ↔ (w.agents c).sock = s
+
+/-- the invariant of DAG file `d` with socket name `s` -/
+structure Excl (w : World) (d s : Nat) : Prop where
   /-- whoever is at a lock-holding program counter holds the lock -/
   lockOk : ∀ a, (w.agents a).dag = d → holdsLock (w.agents a).pc = true → w.lk d = some a
   /-- at most one agent between its probe and the close of its endpoint -/
   one : ∀ a b, a ≠ b → (w.agents a).dag = d → (w.agents b).dag = d →
           ¬ (inRegion (w.agents a).pc = true ∧ inRegion (w.agents b).pc = true)
   /-- whoever holds the endpoint owns a bound, listening socket -/
-  hold : ∀ a, (w.agents a).dag = d → holding (w.agents a).pc = true → w.ns d = .bound a true
+  hold : ∀ a, (w.agents a).dag = d → holding (w.agents a).pc = true → w.ns s = .bound a true
   /-- whoever is about to listen owns the bound socket -/
-  lis : ∀ a, (w.agents a).dag = d → (w.agents a).pc = .listen → w.ns d = .bound a false
+  lis : ∀ a, (w.agents a).dag = d → (w.agents a).pc = .listen → w.ns s = .bound a false
   /-- whoever is about to bind finds the path free -/
-  bnd : ∀ a, (w.agents a).dag = d → (w.agents a).pc = .bind → w.ns d = .absent
+  bnd : ∀ a, (w.agents a).dag = d → (w.agents a).pc = .bind → w.ns s = .absent
   /-- nobody is on the bind-failure path -/
   nofail : ∀ a, (w.agents a).dag = d → failing (w.agents a).pc = false
 
 /-- nobody else touches the socket of the file while agent `x` is in the region -/
-theorem ns_kept {w w' : World} {a x : Nat} {act : Act} {d : Nat} (inv : Excl w d) (h : step w a act = some w')
+theorem ns_kept {w w' : World} {a x : Nat} {act : Act} {d s : Nat} (key : OneSpelling w d s) (inv : Excl w d s)
+    (h : step w a act = some w')
     (hx : x ≠ a) (hdx : (w.agents x).dag = d) (hr : inRegion (w.agents x).pc = true)
-    (hb : ∀ c l, w.ns d = .bound c l → c = x) : w'.ns d = w.ns d := by
+    (hb : ∀ c l, w.ns s = .bound c l → c = x) : w'.ns s = w.ns s := by
   apply Classical.byContradiction
   intro hc
   obtain ⟨hd, hwho⟩ := ns_changed h _ hc
   rcases hwho with hreg | ⟨_, l, hl⟩
-  · exact inv.one x a hx hdx hd.symm ⟨hr, hreg⟩
+  · exact inv.one x a hx hdx ((key a).2 hd.symm) ⟨hr, hreg⟩
   · exact hx (hb a l hl).symm
 
-theorem step_excl {w w' : World} {a : Nat} {act : Act} {d : Nat} (hopen : OpenDag w d) (inv : Excl w d)
-    (h : step w a act = some w') : Excl w' d := by
+theorem step_excl {w w' : World} {a : Nat} {act : Act} {d s : Nat} (hopen : OpenDag w d) (key : OneSpelling w d s)
+    (inv : Excl w d s) (h : step w a act = some w') : Excl w' d s := by
   have hdag : ∀ b, (w'.agents b).dag = (w.agents b).dag := step_dag h
   have hoth : ∀ b, b ≠ a → w'.agents b = w.agents b := step_other h
   by_cases hda : (w.agents a).dag = d
   · -- the actor is an agent of this file
-    have key : ∀ x, x ≠ a → (w.agents x).dag = d → inRegion (w.agents x).pc = true →
+    have hsa : (w.agents a).sock = s := (key a).1 hda
+    have hsa' : (w'.agents a).sock = s := by rw [step_sock h a]; exact hsa
+    have keyf : ∀ x, x ≠ a → (w.agents x).dag = d → inRegion (w.agents x).pc = true →
         inRegion (w'.agents a).pc = true → False := by
       intro x hx hd hrx hra
       rcases enter_region h hra with hold | ⟨_, hpc, hnb⟩
@@ -225,7 +264,7 @@ theorem step_excl {w w' : World} {a : Nat} {act : Act} {d : Nat} (hopen : OpenDa
         · have hh : holding (w.agents x).pc = true := by
             simp [inRegion, hw] at hrx; exact hrx
           have := inv.hold x hd hh
-          rw [← hda] at this
+          rw [← hsa] at this
           exact hnb x this
     refine ⟨?_, ?_, ?_, ?_, ?_, ?_⟩
     · intro x hdx hl
@@ -242,42 +281,42 @@ theorem step_excl {w w' : World} {a : Nat} {act : Act} {d : Nat} (hopen : OpenDa
       · subst hxa
         have hya : y ≠ x := fun e => hxy e.symm
         rw [hoth y hya] at hy
-        exact key y hya hdy hy hx
+        exact keyf y hya hdy hy hx
       · by_cases hya : y = a
         · subst hya
           rw [hoth x hxa] at hx
-          exact key x hxa hdx hx hy
+          exact keyf x hxa hdx hx hy
         · rw [hoth x hxa] at hx; rw [hoth y hya] at hy
           exact inv.one x y hxy hdx hdy ⟨hx, hy⟩
     · intro x hdx hx
       rw [hdag x] at hdx
       by_cases hxa : x = a
       · subst hxa
-        have := hold_ns h hx (fun hp => by rw [hdx]; exact inv.hold x hdx hp) (fun hp => by rw [hdx]; exact inv.lis x hdx hp)
-        rw [hdag x, hdx] at this; exact this
+        have := hold_ns h hx (fun hp => by rw [hsa]; exact inv.hold x hdx hp) (fun hp => by rw [hsa]; exact inv.lis x hdx hp)
+        rw [hsa'] at this; exact this
       · rw [hoth x hxa] at hx
         have hb := inv.hold x hdx hx
-        rw [ns_kept inv h hxa hdx (holding_region hx) (fun c l hc => by rw [hb] at hc; injection hc with e _; exact e.symm)]
+        rw [ns_kept key inv h hxa hdx (holding_region hx) (fun c l hc => by rw [hb] at hc; injection hc with e _; exact e.symm)]
         exact hb
     · intro x hdx hx
       rw [hdag x] at hdx
       by_cases hxa : x = a
       · subst hxa
         have := listen_ns h hx
-        rw [hdag x, hdx] at this; exact this
+        rw [hsa'] at this; exact this
       · rw [hoth x hxa] at hx
         have hb := inv.lis x hdx hx
-        rw [ns_kept inv h hxa hdx (by rw [hx]; rfl) (fun c l hc => by rw [hb] at hc; injection hc with e _; exact e.symm)]
+        rw [ns_kept key inv h hxa hdx (by rw [hx]; rfl) (fun c l hc => by rw [hb] at hc; injection hc with e _; exact e.symm)]
         exact hb
     · intro x hdx hx
       rw [hdag x] at hdx
       by_cases hxa : x = a
       · subst hxa
         have := bind_ns h hx
-        rw [hdag x, hdx] at this; exact this
+        rw [hsa'] at this; exact this
       · rw [hoth x hxa] at hx
         have hb := inv.bnd x hdx hx
-        rw [ns_kept inv h hxa hdx (by rw [hx]; rfl) (fun c l hc => by rw [hb] at hc; cases hc)]
+        rw [ns_kept key inv h hxa hdx (by rw [hx]; rfl) (fun c l hc => by rw [hb] at hc; cases hc)]
         exact hb
     · intro x hdx
       rw [hdag x] at hdx
@@ -288,11 +327,12 @@ theorem step_excl {w w' : World} {a : Nat} {act : Act} {d : Nat} (hopen : OpenDa
         | true =>
           rcases enter_failing h hf with hold | ⟨hpc, hne⟩
           · rw [inv.nofail x hdx] at hold; cases hold
-          · rw [hdx] at hne; exact absurd (inv.bnd x hdx hpc) hne
+          · rw [hsa] at hne; exact absurd (inv.bnd x hdx hpc) hne
       · rw [hoth x hxa]; exact inv.nofail x hdx
-  · -- the actor belongs to another file: nothing of this file moves
+  · -- the actor belongs to another file (and so uses another socket name): nothing of this file moves
     have hne : ∀ x, (w.agents x).dag = d → x ≠ a := fun x hx e => hda (e ▸ hx)
-    have hns : w'.ns d = w.ns d := step_ns_other h d (fun e => hda e.symm)
+    have hsne : s ≠ (w.agents a).sock := fun e => hda ((key a).2 e.symm)
+    have hns : w'.ns s = w.ns s := step_ns_other h s hsne
     have hlk : w'.lk d = w.lk d := step_lk_other h d (fun e => hda e.symm)
     refine ⟨?_, ?_, ?_, ?_, ?_, ?_⟩
     · intro x hdx hl; rw [hdag x] at hdx; rw [hoth x (hne x hdx)] at hl; rw [hlk]; exact inv.lockOk x hdx hl
@@ -305,7 +345,7 @@ theorem step_excl {w w' : World} {a : Nat} {act : Act} {d : Nat} (hopen : OpenDa
     · intro x hdx hx; rw [hdag x] at hdx; rw [hoth x (hne x hdx)] at hx; rw [hns]; exact inv.bnd x hdx hx
     · intro x hdx; rw [hdag x] at hdx; rw [hoth x (hne x hdx)]; exact inv.nofail x hdx
 
-theorem init_excl (cfgs : List Cfg) (d : Nat) : Excl (init cfgs) d := by
+theorem init_excl (cfgs : List Cfg) (d s : Nat) : Excl (init cfgs) d s := by
   have hpc : ∀ a, ((init cfgs).agents a).pc = .setup ∨ ((init cfgs).agents a).pc = .done := by
     intro a; simp only [init]; split <;> simp [fresh, idle]
   refine ⟨?_, ?_, ?_, ?_, ?_, ?_⟩
@@ -322,26 +362,36 @@ theorem init_excl (cfgs : List Cfg) (d : Nat) : Excl (init cfgs) d := by
   · intro a _
     rcases hpc a with h | h <;> rw [h] <;> rfl
 
-theorem run_excl {w w' : World} {tr : List (Nat × Act)} {d : Nat} (h : run w tr = some w')
-    (hopen : OpenDag w d) (inv : Excl w d) : Excl w' d ∧ OpenDag w' d := by
+/-- `dag`, `sock` and `canOpen` are constants of a step -/
+theorem step_const {w w' : World} {a : Nat} {act : Act} (h : step w a act = some w') (c : Nat) :
+    (w'.agents c).dag = (w.agents c).dag ∧ (w'.agents c).sock = (w.agents c).sock ∧
+    (w'.agents c).canOpen = (w.agents c).canOpen :=
+  ⟨step_dag h c, step_sock h c, step_canOpen h c⟩
+
+theorem run_excl {w w' : World} {tr : List (Nat × Act)} {d s : Nat} (h : run w tr = some w')
+    (hopen : OpenDag w d) (key : OneSpelling w d s) (inv : Excl w d s) : Excl w' d s := by
   induction tr generalizing w with
-  | nil => simp [run] at h; subst h; exact ⟨inv, hopen⟩
+  | nil => simp [run] at h; subst h; exact inv
   | cons x tr ih =>
     obtain ⟨a, act⟩ := x
     simp only [run] at h
     split at h
     · cases h
     · rename_i w1 hs
-      refine ih h ?_ (step_excl hopen inv hs)
-      intro c hc
-      rw [step_canOpen hs c]
-      exact hopen c (by rw [← step_dag hs c]; exact hc)
+      refine ih h ?_ ?_ (step_excl hopen key inv hs)
+      · intro c hc
+        rw [(step_const hs c).2.2]
+        exact hopen c (by rw [← (step_const hs c).1]; exact hc)
+      · intro c
+        rw [(step_const hs c).1, (step_const hs c).2.1]
+        exact key c
 
-/-- `dag` and `canOpen` are constants of a run -/
+/-- `dag`, `sock` and `canOpen` are constants of a run -/
 theorem run_const {w w' : World} {tr : List (Nat × Act)} (h : run w tr = some w') (c : Nat) :
-    (w'.agents c).dag = (w.agents c).dag ∧ (w'.agents c).canOpen = (w.agents c).canOpen := by
+    (w'.agents c).dag = (w.agents c).dag ∧ (w'.agents c).sock = (w.agents c).sock ∧
+    (w'.agents c).canOpen = (w.agents c).canOpen := by
   induction tr generalizing w with
-  | nil => simp [run] at h; subst h; exact ⟨rfl, rfl⟩
+  | nil => simp [run] at h; subst h; exact ⟨rfl, rfl, rfl⟩
   | cons x tr ih =>
     obtain ⟨a, act⟩ := x
     simp only [run] at h
@@ -349,15 +399,22 @@ theorem run_const {w w' : World} {tr : List (Nat × Act)} (h : run w tr = some w
     · cases h
     · rename_i w1 hs
       have := ih h
-      exact ⟨by rw [this.1, step_dag hs c], by rw [this.2, step_canOpen hs c]⟩
+      have h1 := step_const hs c
+      exact ⟨by rw [this.1, h1.1], by rw [this.2.1, h1.2.1], by rw [this.2.2, h1.2.2]⟩
 
-/-- **the invariant holds in every reachable world**, for every DAG file all of whose agents can open it -/
-theorem reach_excl {w : World} (h : Reach w) (d : Nat) (hopen : OpenDag w d) : Excl w d := by
+/-- **the invariant holds in every reachable world**, for every DAG file all of whose agents can open it
+    and reach it under one spelling of its path -/
+theorem reach_excl {w : World} (h : Reach w) (d s : Nat) (hopen : OpenDag w d) (key : OneSpelling w d s) :
+    Excl w d s := by
   obtain ⟨cfgs, tr, h⟩ := h
   have h0 : OpenDag (init cfgs) d := by
     intro c hc
     have := run_const h c
-    rw [← this.2]; exact hopen c (by rw [this.1]; exact hc)
-  exact (run_excl h h0 (init_excl cfgs d)).1
+    rw [← this.2.2]; exact hopen c (by rw [this.1]; exact hc)
+  have k0 : OneSpelling (init cfgs) d s := by
+    intro c
+    have := run_const h c
+    rw [← this.1, ← this.2.1]; exact key c
+  exact run_excl h h0 k0 (init_excl cfgs d s)
 
 end BdModel.Lock
